@@ -8,6 +8,9 @@ import Mathlib.Tactic.NormNum.Prime
 import Mathlib.Data.Nat.Prime.Basic
 import Mathlib.Data.Nat.Prime.Pow
 import Mathlib.Data.List.Prime
+import Mathlib.Data.Finset.Sort
+import Mathlib.Data.Finset.Powerset
+import Mathlib.Data.Nat.Choose.Basic
 import Mathlib.Algebra.BigOperators.Group.List.Basic
 import Algobra.Model.Auxmath
 
@@ -484,5 +487,437 @@ theorem factorize_isFactorization (fuel n : Nat) (hn : 1 ≤ n) (hf : n < 2 ^ fu
             intro he; rw [← he] at z; exact h3 z
           exact lt_of_le_of_ne hle hne
         · rw [List.map_cons, List.prod_cons, hc, ← h2]
+
+/-! ### CombinIter -/
+
+/-- strict lexicographic order on index lists (this is `<` on `List Nat`) -/
+abbrev LexLt (s t : List Nat) : Prop := List.Lex (fun a b : Nat => a < b) s t
+
+theorem lexLt_iff_lt (s t : List Nat) : LexLt s t ↔ s < t := Iff.rfl
+
+theorem lexLt_irrefl (s : List Nat) : ¬ LexLt s s := by
+  induction s with
+  | nil => intro h; cases h
+  | cons a s ih =>
+    intro h
+    rcases List.cons_lex_cons_iff.1 h with h | ⟨_, h⟩
+    · exact Nat.lt_irrefl _ h
+    · exact ih h
+
+theorem lexLt_trans {s t u : List Nat} (h1 : LexLt s t) (h2 : LexLt t u) : LexLt s u := by
+  induction s generalizing t u with
+  | nil =>
+    cases t with
+    | nil => cases h1
+    | cons b t => cases u with
+      | nil => cases h2
+      | cons c u => exact List.Lex.nil
+  | cons a s ih =>
+    cases t with
+    | nil => cases h1
+    | cons b t =>
+      cases u with
+      | nil => cases h2
+      | cons c u =>
+        rcases List.cons_lex_cons_iff.1 h1 with h | ⟨rfl, h⟩
+        · rcases List.cons_lex_cons_iff.1 h2 with h' | ⟨rfl, h'⟩
+          · exact List.Lex.rel (Nat.lt_trans h h')
+          · exact List.Lex.rel h
+        · rcases List.cons_lex_cons_iff.1 h2 with h' | ⟨rfl, h'⟩
+          · exact List.Lex.rel h'
+          · exact List.Lex.cons (ih h h')
+
+theorem lexLt_trichotomy (s t : List Nat) : LexLt s t ∨ s = t ∨ LexLt t s := by
+  induction s generalizing t with
+  | nil =>
+    cases t with
+    | nil => exact Or.inr (Or.inl rfl)
+    | cons b t => exact Or.inl List.Lex.nil
+  | cons a s ih =>
+    cases t with
+    | nil => exact Or.inr (Or.inr List.Lex.nil)
+    | cons b t =>
+      rcases Nat.lt_trichotomy a b with h | rfl | h
+      · exact Or.inl (List.Lex.rel h)
+      · rcases ih t with h | rfl | h
+        · exact Or.inl (List.Lex.cons h)
+        · exact Or.inr (Or.inl rfl)
+        · exact Or.inr (Or.inr (List.Lex.cons h))
+      · exact Or.inr (Or.inr (List.Lex.rel h))
+
+/-- strictly increasing with all entries in `[lo, n)` (structural form) -/
+def IsComb (n : Nat) : Nat → List Nat → Prop
+  | _, [] => True
+  | lo, x :: t => lo ≤ x ∧ x < n ∧ IsComb n (x + 1) t
+
+theorem isComb_iff (n lo : Nat) (s : List Nat) :
+    IsComb n lo s ↔ s.Pairwise (· < ·) ∧ ∀ x ∈ s, lo ≤ x ∧ x < n := by
+  induction s generalizing lo with
+  | nil => simp [IsComb]
+  | cons a s ih =>
+    simp only [IsComb, ih, List.pairwise_cons, List.mem_cons, forall_eq_or_imp]
+    constructor
+    · rintro ⟨h1, h2, h3, h4⟩
+      exact ⟨⟨fun y hy => (h4 y hy).1, h3⟩, ⟨h1, h2⟩, fun y hy => ⟨by have := (h4 y hy).1; omega, (h4 y hy).2⟩⟩
+    · rintro ⟨⟨h1, h2⟩, ⟨h3, h4⟩, h5⟩
+      exact ⟨h3, h4, h2, fun y hy => ⟨h1 y hy, (h5 y hy).2⟩⟩
+
+theorem isComb_bound {n lo x : Nat} {t : List Nat} (h : IsComb n lo (x :: t)) :
+    x + t.length + 1 ≤ n := by
+  induction t generalizing lo x with
+  | nil => have := h.2.1; simp; omega
+  | cons y t ih =>
+    have h1 := h.2.2
+    have := ih h1
+    have := h1.1
+    simp only [List.length_cons]; omega
+
+theorem refill_length (l : List Nat) (v : Nat) : (refill l v).length = l.length := by
+  induction l generalizing v with
+  | nil => rfl
+  | cons a l ih => simp [refill, ih]
+
+theorem isComb_refill {n : Nat} (l : List Nat) (v : Nat) (h : v + l.length < n) :
+    IsComb n (v + 1) (refill l v) := by
+  induction l generalizing v with
+  | nil => trivial
+  | cons a l ih =>
+    simp only [List.length_cons] at h
+    exact ⟨le_refl _, by omega, ih (v + 1) (by omega)⟩
+
+/-- `refill l v` is the least combination above `v` of its length -/
+theorem refill_min {n : Nat} (l : List Nat) (v : Nat) (t : List Nat) (ht : IsComb n (v + 1) t)
+    (hl : t.length = l.length) : LexLt (refill l v) t ∨ refill l v = t := by
+  induction l generalizing v t with
+  | nil =>
+    cases t with
+    | nil => exact Or.inr rfl
+    | cons _ _ => simp at hl
+  | cons a l ih =>
+    cases t with
+    | nil => simp at hl
+    | cons y t =>
+      obtain ⟨h1, _, h3⟩ := ht
+      rcases Nat.lt_or_eq_of_le h1 with h | h
+      · exact Or.inl (List.Lex.rel h)
+      · subst h
+        rcases ih (v + 1) t h3 (by simpa using hl) with h | h
+        · exact Or.inl (List.Lex.cons h)
+        · right; simp only [refill]; rw [h]
+
+/-- structural form of `Next()`: lexicographic successor, `none` at the last combination -/
+def nxt (n : Nat) : List Nat → Option (List Nat)
+  | [] => none
+  | x :: t =>
+    match nxt n t with
+    | some t' => some (x :: t')
+    | none => if x + t.length + 1 < n then some ((x + 1) :: refill t (x + 1)) else none
+
+theorem nxt_none_max {n : Nat} {s : List Nat} (h : nxt n s = none) (t : List Nat) (lo : Nat)
+    (ht : IsComb n lo t) (hl : t.length = s.length) : LexLt t s ∨ t = s := by
+  induction s generalizing t lo with
+  | nil =>
+    cases t with
+    | nil => exact Or.inr rfl
+    | cons _ _ => simp at hl
+  | cons x r ih =>
+    cases t with
+    | nil => simp at hl
+    | cons y t =>
+      have hlen : t.length = r.length := by simpa using hl
+      simp only [nxt] at h
+      split at h
+      · cases h
+      · rename_i hr
+        split at h
+        · cases h
+        · rename_i hx
+          have hb := isComb_bound ht
+          rw [hlen] at hb
+          have hyx : y ≤ x := by omega
+          rcases Nat.lt_or_eq_of_le hyx with h' | h'
+          · exact Or.inl (List.Lex.rel h')
+          · subst h'
+            rcases ih hr t (y + 1) ht.2.2 hlen with h'' | h''
+            · exact Or.inl (List.Lex.cons h'')
+            · exact Or.inr (by rw [h''])
+
+theorem nxt_some {n : Nat} {s s' : List Nat} (lo : Nat) (h : nxt n s = some s')
+    (hs : IsComb n lo s) :
+    IsComb n lo s' ∧ LexLt s s' ∧ s'.length = s.length ∧
+      ∀ t lo', IsComb n lo' t → t.length = s.length → LexLt s t → (LexLt s' t ∨ s' = t) := by
+  induction s generalizing s' lo with
+  | nil => simp [nxt] at h
+  | cons x r ih =>
+    obtain ⟨hs1, hs2, hs3⟩ := hs
+    simp only [nxt] at h
+    split at h
+    · rename_i r' hr
+      injection h with h; subst h
+      obtain ⟨a, b, c, d⟩ := ih (x + 1) hr hs3
+      refine ⟨⟨hs1, hs2, a⟩, List.Lex.cons b, by simp [c], ?_⟩
+      intro t lo' ht hl hlt
+      cases t with
+      | nil => cases hlt
+      | cons y t =>
+        rcases List.cons_lex_cons_iff.1 hlt with h' | ⟨rfl, h'⟩
+        · exact Or.inl (List.Lex.rel h')
+        · rcases d t (x + 1) ht.2.2 (by simpa using hl) h' with h'' | h''
+          · exact Or.inl (List.Lex.cons h'')
+          · exact Or.inr (by rw [h''])
+    · rename_i hr
+      split at h
+      · rename_i hx
+        injection h with h; subst h
+        refine ⟨⟨by omega, by omega, isComb_refill r (x + 1) (by omega)⟩,
+          List.Lex.rel (Nat.lt_succ_self x), by simp [refill_length], ?_⟩
+        intro t lo' ht hl hlt
+        cases t with
+        | nil => cases hlt
+        | cons y t =>
+          have hlen : t.length = r.length := by simpa using hl
+          rcases List.cons_lex_cons_iff.1 hlt with h' | ⟨rfl, h'⟩
+          · rcases Nat.lt_or_eq_of_le (Nat.succ_le_of_lt h') with h'' | h''
+            · exact Or.inl (List.Lex.rel h'')
+            · subst h''
+              rcases refill_min r (x + 1) t ht.2.2 hlen with h3 | h3
+              · exact Or.inl (List.Lex.cons h3)
+              · exact Or.inr (by rw [h3])
+          · -- `r` is already maximal, nothing of the form `x :: t` lies above
+            rcases nxt_none_max hr t (x + 1) ht.2.2 hlen with h3 | h3
+            · exact absurd (lexLt_trans h' h3) (lexLt_irrefl _)
+            · subst h3; exact absurd h' (lexLt_irrefl _)
+      · cases h
+
+theorem nxt_append_some {n : Nat} (pre : List Nat) {t t' : List Nat} (h : nxt n t = some t') :
+    nxt n (pre ++ t) = some (pre ++ t') := by
+  induction pre with
+  | nil => simpa using h
+  | cons a pre ih => simp only [List.cons_append, nxt, ih]
+
+/-- the backwards scan of the code computes `nxt` -/
+theorem nextAux_eq (n : Nat) (pre suf : List Nat) (fuel : Nat) (hsuf : nxt n suf = none)
+    (hf : pre.length < fuel) :
+    nextAux n (pre ++ suf) suf.length fuel = nxt n (pre ++ suf) := by
+  induction pre using List.reverseRecOn generalizing suf fuel with
+  | nil =>
+    cases fuel with
+    | zero => omega
+    | succ f => simp [nextAux, hsuf]
+  | append_singleton pre' x ih =>
+    cases fuel with
+    | zero => omega
+    | succ f =>
+      have hlen : (pre' ++ [x] ++ suf).length = pre'.length + 1 + suf.length := by simp; omega
+      have hj : (pre' ++ [x] ++ suf).length - 1 - suf.length = pre'.length := by omega
+      have hs : pre' ++ [x] ++ suf = pre' ++ x :: suf := by simp
+      rw [nextAux, if_neg (by omega)]
+      simp only [hj]
+      have hget : (pre' ++ [x] ++ suf).getD pre'.length 0 = x := by
+        rw [hs]; simp
+      have htake : (pre' ++ [x] ++ suf).take pre'.length = pre' := by
+        rw [hs]; simp
+      have hdrop : (pre' ++ [x] ++ suf).drop (pre'.length + 1) = suf := by
+        rw [hs]; simp
+      rw [hget, htake, hdrop]
+      split
+      · rename_i hx
+        have h1 : nxt n (x :: suf) = some ((x + 1) :: refill suf (x + 1)) := by
+          simp only [nxt, hsuf, if_pos hx]
+        rw [hs, nxt_append_some pre' h1]
+        simp
+      · rename_i hx
+        have h1 : nxt n (x :: suf) = none := by
+          simp only [nxt, hsuf, if_neg hx]
+        have := ih (x :: suf) f h1 (by simp at hf; omega)
+        rw [hs]
+        simpa using this
+
+theorem next_eq_nxt (n : Nat) (s : List Nat) : next n s = nxt n s := by
+  have := nextAux_eq n s [] (s.length + 1) rfl (by omega)
+  simpa [next] using this
+
+/-- the `k`-combinations of `{0,…,n-1}` as index lists -/
+def Valid (n k : Nat) (s : List Nat) : Prop := IsComb n 0 s ∧ s.length = k
+
+theorem valid_iff (n k : Nat) (s : List Nat) :
+    Valid n k s ↔ s.length = k ∧ s.Pairwise (· < ·) ∧ ∀ x ∈ s, x < n := by
+  unfold Valid
+  rw [isComb_iff]
+  simp only [Nat.zero_le, true_and]
+  tauto
+
+/-- `next` is the lexicographic successor among combinations -/
+theorem next_some {n k : Nat} {s s' : List Nat} (h : next n s = some s') (hs : Valid n k s) :
+    Valid n k s' ∧ LexLt s s' ∧ ∀ t, Valid n k t → LexLt s t → (LexLt s' t ∨ s' = t) := by
+  rw [next_eq_nxt] at h
+  obtain ⟨a, b, c, d⟩ := nxt_some 0 h hs.1
+  exact ⟨⟨a, by rw [c, hs.2]⟩, b, fun t ht hlt => d t 0 ht.1 (by rw [ht.2, hs.2]) hlt⟩
+
+/-- `next` reports the end exactly at the lexicographically last combination -/
+theorem next_none {n k : Nat} {s : List Nat} (h : next n s = none) (hs : Valid n k s) :
+    ∀ t, Valid n k t → (LexLt t s ∨ t = s) := by
+  rw [next_eq_nxt] at h
+  exact fun t ht => nxt_none_max h t 0 ht.1 (by rw [ht.2, hs.2])
+
+/-- all combinations as a finite set (image of the `k`-subsets under sorting) -/
+def validSet (n k : Nat) : Finset (List Nat) :=
+  ((Finset.range n).powersetCard k).image (fun f => f.sort (· ≤ ·))
+
+theorem mem_validSet {n k : Nat} {s : List Nat} : s ∈ validSet n k ↔ Valid n k s := by
+  rw [valid_iff]
+  unfold validSet
+  constructor
+  · intro h
+    obtain ⟨f, hf, rfl⟩ := Finset.mem_image.1 h
+    obtain ⟨hsub, hcard⟩ := Finset.mem_powersetCard.1 hf
+    refine ⟨by rw [Finset.length_sort, hcard], ?_, ?_⟩
+    · have h1 : (f.sort (· ≤ ·)).Pairwise (· ≤ ·) := Finset.pairwise_sort f (· ≤ ·)
+      have h2 : (f.sort (· ≤ ·)).Pairwise (· ≠ ·) := Finset.sort_nodup f (· ≤ ·)
+      exact (h1.and h2).imp (fun h => lt_of_le_of_ne h.1 h.2)
+    · intro x hx
+      exact Finset.mem_range.1 (hsub ((Finset.mem_sort (· ≤ ·)).1 hx))
+  · rintro ⟨hl, hp, hb⟩
+    have hnd : s.Nodup := hp.imp (fun h => Nat.ne_of_lt h)
+    refine Finset.mem_image.2 ⟨s.toFinset, Finset.mem_powersetCard.2 ⟨?_, ?_⟩, ?_⟩
+    · intro x hx
+      exact Finset.mem_range.2 (hb x (List.mem_toFinset.1 hx))
+    · rw [List.toFinset_card_of_nodup hnd, hl]
+    · exact (List.toFinset_sort (· ≤ ·) hnd).2 (hp.imp (fun h => Nat.le_of_lt h))
+
+theorem card_validSet (n k : Nat) : (validSet n k).card = n.choose k := by
+  unfold validSet
+  rw [Finset.card_image_of_injective, Finset.card_powersetCard, Finset.card_range]
+  intro f g hfg
+  have := congrArg List.toFinset hfg
+  simpa using this
+
+open Classical in
+/-- number of combinations strictly above `s` -/
+noncomputable def above (n k : Nat) (s : List Nat) : Nat :=
+  ((validSet n k).filter (fun t => LexLt s t)).card
+
+theorem above_le (n k : Nat) (s : List Nat) : above n k s ≤ n.choose k := by
+  unfold above
+  rw [← card_validSet n k]
+  exact Finset.card_filter_le _ _
+
+theorem above_lt {n k : Nat} {s s' : List Nat} (hs' : Valid n k s') (hlt : LexLt s s') :
+    above n k s' < above n k s := by
+  unfold above
+  apply Finset.card_lt_card
+  rw [Finset.ssubset_def]
+  constructor
+  · intro t ht
+    rw [Finset.mem_filter] at ht ⊢
+    exact ⟨ht.1, lexLt_trans hlt ht.2⟩
+  · intro hsub
+    have h1 : s' ∈ (validSet n k).filter (fun t => LexLt s t) :=
+      Finset.mem_filter.2 ⟨mem_validSet.2 hs', hlt⟩
+    have h2 := hsub h1
+    rw [Finset.mem_filter] at h2
+    exact lexLt_irrefl _ h2.2
+
+theorem allFrom_spec (n k : Nat) (fuel : Nat) (s : List Nat) (hs : Valid n k s)
+    (hf : above n k s < fuel) :
+    (∃ rest, allFrom n s fuel = s :: rest) ∧
+    (allFrom n s fuel).Pairwise LexLt ∧
+    (∀ t ∈ allFrom n s fuel, Valid n k t) ∧
+    (∀ t, Valid n k t → (LexLt s t ∨ s = t) → t ∈ allFrom n s fuel) := by
+  induction fuel generalizing s with
+  | zero => omega
+  | succ f ih =>
+    rw [allFrom]
+    split
+    · rename_i hnone
+      refine ⟨⟨[], rfl⟩, List.pairwise_singleton _ _, ?_, ?_⟩
+      · intro t ht
+        rw [List.mem_singleton] at ht; subst ht; exact hs
+      · intro t ht hst
+        rw [List.mem_singleton]
+        rcases hst with h | h
+        · rcases next_none hnone hs t ht with h' | h'
+          · exact absurd (lexLt_trans h h') (lexLt_irrefl _)
+          · exact h'
+        · exact h.symm
+    · rename_i s' hsome
+      obtain ⟨hv', hlt, hmin⟩ := next_some hsome hs
+      have hab := above_lt (s := s) hv' hlt
+      obtain ⟨⟨rest, hrest⟩, hpw, hall, hcomp⟩ := ih s' hv' (by omega)
+      refine ⟨⟨_, rfl⟩, ?_, ?_, ?_⟩
+      · rw [List.pairwise_cons]
+        refine ⟨?_, hpw⟩
+        intro t ht
+        rw [hrest] at ht hpw
+        rcases List.mem_cons.1 ht with h | h
+        · subst h; exact hlt
+        · exact lexLt_trans hlt ((List.pairwise_cons.1 hpw).1 t h)
+      · intro t ht
+        rcases List.mem_cons.1 ht with h | h
+        · subst h; exact hs
+        · exact hall t h
+      · intro t ht hst
+        rcases hst with h | h
+        · exact List.mem_cons_of_mem _ (hcomp t ht (hmin t ht h))
+        · subst h; exact List.mem_cons_self
+
+theorem isComb_range' {n : Nat} (lo k : Nat) (h : lo + k ≤ n) : IsComb n lo (List.range' lo k) := by
+  induction k generalizing lo with
+  | zero => trivial
+  | succ k ih =>
+    rw [List.range'_succ]
+    exact ⟨le_refl _, by omega, ih (lo + 1) (by omega)⟩
+
+theorem range'_min {n : Nat} (lo k : Nat) (t : List Nat) (ht : IsComb n lo t) (hl : t.length = k) :
+    LexLt (List.range' lo k) t ∨ List.range' lo k = t := by
+  induction k generalizing lo t with
+  | zero =>
+    cases t with
+    | nil => exact Or.inr rfl
+    | cons _ _ => simp at hl
+  | succ k ih =>
+    cases t with
+    | nil => simp at hl
+    | cons y t =>
+      rw [List.range'_succ]
+      obtain ⟨h1, _, h3⟩ := ht
+      rcases Nat.lt_or_eq_of_le h1 with h | h
+      · exact Or.inl (List.Lex.rel h)
+      · subst h
+        rcases ih (lo + 1) t h3 (by simpa using hl) with h | h
+        · exact Or.inl (List.Lex.cons h)
+        · right; rw [h]
+
+theorem choose_eq (n k : Nat) : choose n k = Nat.choose n k := by
+  induction n generalizing k with
+  | zero => cases k <;> simp [choose]
+  | succ n ih =>
+    cases k with
+    | zero => simp [choose]
+    | succ k => simp only [choose, ih, Nat.choose_succ_succ]
+
+theorem valid_range {n k : Nat} (hk : k ≤ n) : Valid n k (List.range k) := by
+  rw [List.range_eq_range']
+  exact ⟨isComb_range' 0 k (by omega), by simp⟩
+
+theorem combinations_props {n k : Nat} (hk : k ≤ n) :
+    (combinations n k).Pairwise LexLt ∧ (∀ t, t ∈ combinations n k ↔ Valid n k t) := by
+  have hs := valid_range hk
+  have hf : above n k (List.range k) < choose n k + 1 := by
+    rw [choose_eq]; exact Nat.lt_succ_of_le (above_le n k _)
+  obtain ⟨_, hpw, hall, hcomp⟩ := allFrom_spec n k _ _ hs hf
+  refine ⟨hpw, fun t => ⟨hall t, fun ht => hcomp t ht ?_⟩⟩
+  rw [List.range_eq_range']
+  exact range'_min 0 k t ht.1 ht.2
+
+theorem combinations_length {n k : Nat} (hk : k ≤ n) :
+    (combinations n k).length = n.choose k := by
+  obtain ⟨hpw, hmem⟩ := combinations_props hk
+  have hnd : (combinations n k).Nodup :=
+    hpw.imp (fun {a b} h (hab : a = b) => lexLt_irrefl a (by rw [← hab] at h; exact h))
+  rw [← card_validSet n k, ← List.toFinset_card_of_nodup hnd]
+  congr 1
+  ext t
+  rw [List.mem_toFinset, hmem, mem_validSet]
 
 end Algobra.Auxmath
